@@ -231,6 +231,43 @@ def main():
                     continue
                 if got != want:
                     mism.append(dict(where, kind='setstate-on-used-tree', source=what, model=want, real=got))
+        # a user subclass of the tree class with a leaf class of its own (the documented _bucket_type hook): its states
+        # load, copy and pickle like the stock classes' (leaves stay instances of the custom leaf class)
+        if ti % 3 == 0:
+            for impl, classes in (('c', cC), ('py', cP)):
+                treebase, leafbase = (classes[2], classes[3]) if is_set else (classes[0], classes[1])
+                nm = '%s%s' % (impl, 'S' if is_set else 'M')
+                SubL = type('SubLeaf' + nm, (leafbase,), {})
+                SubT = type('SubTree' + nm, (treebase,), dict(_bucket_type=SubL, max_leaf_size=job['leaf'], max_internal_size=job['internal']))
+                for kls in (SubL, SubT):
+                    kls.__module__ = '__main__'
+                    setattr(sys.modules['__main__'], kls.__name__, kls)
+                where = dict(fam=fam, impl=impl, is_set=is_set, sizes=[job['leaf'], job['internal']], ti=ti, act=tr['act'], subclass=True)
+                try:
+                    t = build(SubT, ti)
+                except Exception as e:
+                    mism.append(dict(where, kind='subclass-build-raises', real=repr(e)))
+                    continue
+                if P.proj(t, emb, is_set) != tr['to']:
+                    mism.append(dict(where, kind='subclass-structure', model=tr['to'], real=P.proj(t, emb, is_set)))
+                    continue
+                if tr['rt'] != tr['to']:
+                    continue            # (the inline-leaf damage of finding D25 is predicted for this state)
+                for name, f in (('setstate', lambda: _setstate(SubT, t)), ('deepcopy', lambda: copy.deepcopy(t)),
+                                ('pickle2', lambda: pickle.loads(pickle.dumps(t, 2))), ('pickle5', lambda: pickle.loads(pickle.dumps(t, 5)))):
+                    counts['roundtrips'] += 1
+                    try:
+                        u = f()
+                        rp = P.proj(u, emb, is_set)
+                        u._check()
+                        leaves_ok = all(type(l) is SubL for l in P.collect_leaves(u))
+                    except Exception as e:
+                        mism.append(dict(where, kind='subclass-roundtrip-raises', trip=name, real='%s: %s' % (type(e).__name__, str(e)[:80])))
+                        continue
+                    if rp != tr['to']:
+                        mism.append(dict(where, kind='subclass-roundtrip-structure', trip=name, model=tr['to'], real=rp))
+                    elif not leaves_ok:
+                        mism.append(dict(where, kind='subclass-roundtrip-leaf-class', trip=name))
         # fs leaves: toBytes() is all keys then all values; fromBytes() rebuilds the leaf (C and Python alike)
         if fam == 'fs' and not is_set and 'c' in objs and 'py' in objs:
             mleaves = []
